@@ -116,9 +116,6 @@ Proof.
 Qed.
 
 (* additivity of the factor in the dimension (used by products, C04/C05) *)
-Definition dim_add (a b : dim) : dim := {| dS := dS a + dS b; dT := dT a + dT b; dQ := dQ a + dQ b |}.
-Definition dim_opp (a : dim) : dim := {| dS := - dS a; dT := - dT a; dQ := - dQ a |}.
-Definition dim_scal (k : Z) (a : dim) : dim := {| dS := k * dS a; dT := k * dT a; dQ := k * dQ a |}.
 
 Lemma scale_add u a b : scale u (dim_add a b) = scale u a * scale u b.
 Proof.
